@@ -257,6 +257,8 @@ def e2(x, a, b):
 
 
 def run(rep, tier):
+    from .. import scale
+    scale.run(rep, PROP, tier)          # size ladders (seedverif/scale.py): the entries that concern this property
     rng = core.rng_for(PROP)
     descs = []
     for kind, c in seqs(tier):
